@@ -702,11 +702,16 @@ fn codegen_fn_scale(units: &Vec<UnitDef>) -> TokenStream {
             // An integer literal is handed on as a float literal (`1000` as
             // `1000e0`): as an integer it gets the type `i32` in the float
             // back-end, so that scales above `i32::MAX` do not compile.
+            // Digit separators and type suffixes are dropped in any case,
+            // the decimal back-end does not accept them.
             let unit_scale: syn::Lit = match unit.scale.as_ref().unwrap() {
                 syn::Lit::Int(int_lit) => syn::Lit::Float(syn::LitFloat::new(
                     format!("{}e0", int_lit.base10_digits()).as_str(),
                     int_lit.span(),
                 )),
+                syn::Lit::Float(float_lit) => syn::Lit::Float(
+                    syn::LitFloat::new(float_lit.base10_digits(), float_lit.span()),
+                ),
                 lit => lit.clone(),
             };
             code = quote!(
